@@ -414,6 +414,23 @@ func genTok(optionMode string) func(ctx *Ctx) {
 				}
 			}
 		}
+		// option sweep: a few inputs on which every option has something to do (comments, numbers of both kinds, quoted
+		// strings with doubled quotes, unknown characters, whitespace runs, line breaks) under ALL 128 option sets
+		if optionMode == "all" && !ctx.Thorough {
+			for _, t := range []string{"a  /*c*/ 1.5 'q''r' \n# x\r\nb $", "1 2.0 -3 .5 5. 1e5", "'a' \"b\" '' \"\"\"\" 'é'", "x /* y */ // z\n w", " \t \t", "é 😀 $ \uffff",
+				"a,b;\"c,d\"\r\n 7", "{{ a }} {{! c }} t {{{b}}}", "", "a\n\rb \r\n", "-1.5e+3 - 1", "/* never closed 'q"} {
+				for kind := 0; kind < 4; kind++ {
+					cfg := defaultCsvCfg
+					if kind == 2 {
+						cfg = csvCfgs[ctx.Rnd.Intn(len(csvCfgs))]
+					}
+					for b := 0; b < 128; b++ {
+						ctx.Count("option-sweep:" + tokNames[kind])
+						ctx.Input(tokInput(kind, b, []rune(t), cfg), true)
+					}
+				}
+			}
+		}
 		for i := 0; i < n; i++ {
 			ln := 1 + ctx.Rnd.Intn(14)
 			var text []rune
@@ -433,7 +450,7 @@ func init() {
 	register(&Prop{ID: "C04", Gen: genTok("none"), Run: runTok("C04"), Human: tokHuman,
 		Rule: "strings over the alphabet {letters, digits, . - / * \" ' < > = ! { } # , ; space tab CR LF, e-acute, CJK, emoji, U+FFFF, _ ( e +}: exhaustive up to length 2 (quick) / 3 (thorough) and random strings up to length ~16 built from characters and multi-character fragments, on the four tokenizers (CSV under four separator/quote configurations) with no option enabled; non-trivial = at least two character classes; distinct by input hash"})
 	register(&Prop{ID: "C15", Gen: genTok("all"), Run: runTok("C15"), Human: tokHuman,
-		Rule: "the C04 input space x option combinations: quick = {none, all, 6 random} per input, thorough = all 128 on every input of length <= 2 over the alphabet and 16 (none, all, 14 drawn) on every other input; the four tokenizers; non-trivial = at least two character classes; distinct by input hash"})
+		Rule: "the C04 input space x option combinations: quick = {none, all, 3 fixed, 4 random} per input plus 12 option-sensitive inputs under all 128 option sets, thorough = all 128 on every input of length <= 2 over the alphabet and 16 (none, all, 14 drawn) on every other input; the four tokenizers; non-trivial = at least two character classes; distinct by input hash"})
 	register(&Prop{ID: "C12", Gen: genTok("all"), Run: runTok("C12"), Human: tokHuman,
 		Rule: "the C15 input space (multi-line inputs with every line-break style, tokens of every class at every offset, the four tokenizers, option combinations as in C15); every token position is compared with a forward scan of a fresh scanner; non-trivial = at least two character classes; distinct by input hash"})
 }
